@@ -1,11 +1,12 @@
 #!/bin/bash
 # tools/try_seed.sh <patch.diff> <ID>[,<ID>...] [tier]   apply a seeded change to /repo, run the checks, undo it
 set -u
+REPO="${VERIF_REPO:-/repo}"
 cd "$(dirname "$0")/.."
 PATCH="$(readlink -f "$1")"; IDS="${2//,/ }"; TIER="${3:-quick}"
-git -C /repo diff --quiet || { echo "/repo is dirty"; exit 2; }
-git -C /repo apply "$PATCH" || { echo "patch does not apply"; exit 2; }
-trap 'git -C /repo checkout -- . ; git -C /repo clean -fdq -- tests 2>/dev/null' EXIT
+git -C "$REPO" diff --quiet || { echo "/repo is dirty"; exit 2; }
+git -C "$REPO" apply "$PATCH" || { echo "patch does not apply"; exit 2; }
+trap 'git -C "$REPO" checkout -- . ; git -C "$REPO" clean -fdq -- tests 2>/dev/null' EXIT
 for id in $IDS; do
   out="$(./check "$id" "$TIER" 2>&1)"; rc=$?
   echo "== $id $TIER exit=$rc :: $(echo "$out" | grep -E "^\s+\[" | head -2 | cut -c1-220 | tr '\n' ' ')"
